@@ -47,7 +47,8 @@ NegAt(h, k) == k >= 1 /\ (h.tv[k + 1] < 0 \/ h.tv[k] < 0)
 Garbage(h, m) == h.mode = "ss" /\ m.neg
 
 BookChecks(h, p, c) ==
-  << <<"KinTime", KinTimeOf(h, p, c)>>, <<"KinOffset", KinOffsetOf(h, p, c)>>,
+  \* (the first step of a run whose initial clock is not the trace's has no previous time to be compared with)
+  << <<"KinTime", (c.k = 1 /\ ~h.t0sync) \/ KinTimeOf(h, p, c)>>, <<"KinOffset", KinOffsetOf(h, p, c)>>,
      <<"KinBack", KinBackOf(h, c)>>, <<"KinDist", KinDistOf(h, p, c)>> >>
 KinChecks(h, p, c) ==
   BookChecks(h, p, c) \o
@@ -83,9 +84,11 @@ Step ==
      /\ mb' = [neg |-> mb.neg \/ (ss /\ NegAt(h, c.k))]
      /\ IF c.ovf THEN Report(<<"QOverflow">>)
         ELSE IF c.k = 0
-        THEN \* the initial state: position bookkeeping only (nothing has been computed yet)
-             Report(Names(<< <<"KinBack", KinBackOf(h, c)>> >>
-                          \o (IF ss THEN << <<"FollowTime", FollowTimeOf(h, c)>>, <<"FollowSpeed", FollowSpeedOf(h, c)>> >> ELSE <<>>)))
+        THEN \* the initial state: position bookkeeping only (nothing has been computed yet): rear = front - length,
+             \* no distance travelled; it agrees with the first trace point in speed, and in time when the run was
+             \* given the trace's clock origin (h.t0sync; a run started with the default clock is judged from step 1)
+             Report(Names(<< <<"KinBack", KinBackOf(h, c)>>, <<"KinDist", Abs(c.dist) <= Q(h)>> >>
+                          \o (IF ss THEN << <<"FollowTime", h.t0sync => FollowTimeOf(h, c)>>, <<"FollowSpeed", FollowSpeedOf(h, c)>> >> ELSE <<>>)))
         ELSE IF Garbage(h, mb) \/ (ss /\ NegAt(h, c.k))
         THEN \* an accepted step that had to be refused, or the rest of such a run
              Report(Names(<< <<"NegSpeedRejected", ~NegAt(h, c.k)>> >> \o BookChecks(h, p, c)))
